@@ -35,6 +35,8 @@ type genFam struct {
 
 func init() { families["gen"] = func() Family { return &genFam{} } }
 
+func (f *genFam) Reseed(r *rand.Rand) { f.rng = r }
+
 func (f *genFam) Setup(cfg M, rng *rand.Rand) { f.rng = rng }
 func (f *genFam) Reset() M                     { f.c = nil; return M{} }
 func (f *genFam) Project() M                   { return M{} }
